@@ -3,6 +3,7 @@
 package valset
 
 import (
+	"bytes"
 	"encoding/json"
 	"fmt"
 	"math/big"
@@ -54,7 +55,57 @@ func parseAct(raw json.RawMessage) act {
 	return a
 }
 
-func addr(a int) common.Address { return common.BytesToAddress([]byte{byte(a)}) }
+// Abstract validator identity a (1, 2, ... ordered as the specification orders addresses: BYTE order) -> concrete
+// address.  Two tables: "plain" (0x00..0a) and "mixed" (VSET_ADDRS=mixed): addresses whose byte order is the
+// identity order but whose first distinguishing hex digit is a LETTER, lower-case for odd and upper-case for even
+// identities in the checksummed text form - every textual order (hex with or without checksum case, String()) that
+// is not the byte order puts some pair the other way round.
+var addrTab = func() []common.Address {
+	const n = 12
+	tab := make([]common.Address, n+1)
+	for a := 1; a <= n; a++ {
+		tab[a] = common.BytesToAddress([]byte{byte(a)})
+	}
+	if os.Getenv("VSET_ADDRS") != "mixed" {
+		return tab
+	}
+	for a := 1; a <= n; a++ {
+		var first byte
+		pos := 0 // index of the distinguishing hex digit in the 40-digit text
+		if a <= 6 {
+			first = byte(0xa+a-1) << 4 // a0, b0, ... f0
+		} else {
+			first, pos = 0xf0|byte(0xa+a-7), 1 // fa, fb, ... ff
+		}
+		for k := 0; ; k++ {
+			var b [20]byte
+			b[0] = first
+			b[18], b[19] = byte(k>>8), byte(k)
+			ad := common.BytesToAddress(b[:])
+			c := ad.Hex()[2+pos]
+			if upper := c >= 'A' && c <= 'F'; upper == (a%2 == 0) {
+				tab[a] = ad
+				break
+			}
+		}
+	}
+	for a := 2; a <= n; a++ {
+		if bytes.Compare(tab[a-1].Bytes(), tab[a].Bytes()) >= 0 {
+			panic("address table not in byte order")
+		}
+	}
+	return tab
+}()
+
+func addr(a int) common.Address { return addrTab[a] }
+func idOf(ad common.Address) int {
+	for a := 1; a < len(addrTab); a++ {
+		if addrTab[a] == ad {
+			return a
+		}
+	}
+	return -1
+}
 
 func mkChanges(chs []ch, unit int64, order int) []*types.Validator {
 	out := make([]*types.Validator, 0, len(chs))
@@ -72,7 +123,7 @@ func mkChanges(chs []ch, unit int64, order int) []*types.Validator {
 func snapshot(vs *types.ValidatorSet) string {
 	var sb strings.Builder
 	for _, v := range vs.Validators {
-		fmt.Fprintf(&sb, "%x/%d/%d ", v.Address.Bytes()[19], v.VotingPower, v.ProposerPriority)
+		fmt.Fprintf(&sb, "%x/%d/%d ", idOf(v.Address), v.VotingPower, v.ProposerPriority)
 	}
 	return sb.String()
 }
@@ -223,7 +274,7 @@ func TestReplay(t *testing.T) {
 			}
 		}
 		if unit == 1 && la.op == "inc" && vs.GetProposer().Address != addr(l.P) {
-			res.Mismatch(pfx+"proposer", fmt.Sprintf("after %s: real proposer %x, specified %d", string(raw), vs.GetProposer().Address.Bytes()[19], l.P), detail)
+			res.Mismatch(pfx+"proposer", fmt.Sprintf("after %s: real proposer %x, specified %d", string(raw), idOf(vs.GetProposer().Address), l.P), detail)
 		}
 		if unit > 1 {
 			// at the large scale the specification speaks through its big-integer copy: exact priorities and proposer
@@ -234,7 +285,7 @@ func TestReplay(t *testing.T) {
 				}
 			}
 			if la.op == "inc" && vs.GetProposer().Address != addr(refPropU) {
-				res.Mismatch(pfx+"scaled:proposer", fmt.Sprintf("after %s at unit %d: real proposer %x, specified %d", string(raw), unit, vs.GetProposer().Address.Bytes()[19], refPropU), detail)
+				res.Mismatch(pfx+"scaled:proposer", fmt.Sprintf("after %s at unit %d: real proposer %x, specified %d", string(raw), unit, idOf(vs.GetProposer().Address), refPropU), detail)
 			}
 		}
 		if cmpPrio && vs.TotalVotingPower() != func() int64 {
